@@ -203,3 +203,39 @@ Proof.
   apply in_map_iff in H1 as (? & H1 & _). apply in_map_iff in H2 as (? & H2 & _).
   inversion H1; inversion H2; subst. congruence.
 Qed.
+
+(* ---- T0: the row sequence (order included) is the specification's, for every u32 width and height *)
+Lemma zseq_spec_eq : forall n s, zseq_spec s n = zseq_from s n.
+Proof. induction n as [|n IH]; intros s; cbn; [reflexivity | rewrite IH; reflexivity]. Qed.
+
+Lemma rows_of_pass_spec w h p xs ys dx dy kw dw kh dh :
+  0 < w < 4294967296 -> 0 < h < 4294967296 ->
+  assocz p init_pass_table = Some (kw, dw, kh, dh) ->
+  kw = xs -> kh = ys -> dw = dx -> dh = dy -> 0 <= xs < dx -> 0 <= ys < dy ->
+  (dx = 1 \/ dx = 2 \/ dx = 4 \/ dx = 8) -> (dy = 1 \/ dy = 2 \/ dy = 4 \/ dy = 8) ->
+  rows_of_pass w h p =
+    (let pw := count_from w xs dx in let ph := count_from h ys dy in
+     if (0 <? pw) && (0 <? ph) then map (fun l => (p, l, pw)) (zseq_spec 0 (Z.to_nat ph)) else []).
+Proof.
+  intros Hw Hh He -> -> -> -> Hx Hy Hdx Hdy.
+  unfold rows_of_pass, pass_dims. rewrite He. cbv zeta.
+  assert (Ew : sat_u32 (ceil_div (w - xs) dx) = count_from w xs dx).
+  { unfold sat_u32, ceil_div, count_from. destruct Hdx as [-> | [-> | [-> | ->]]]; destruct (w <=? xs) eqn:E; dlia. }
+  assert (Eh : sat_u32 (ceil_div (h - ys) dy) = count_from h ys dy).
+  { unfold sat_u32, ceil_div, count_from. destruct Hdy as [-> | [-> | [-> | ->]]]; destruct (h <=? ys) eqn:E; dlia. }
+  rewrite Ew, Eh.
+  destruct (0 <? count_from w xs dx) eqn:E1; cbn [andb]; [|reflexivity].
+  destruct (0 <? count_from h ys dy) eqn:E2.
+  - unfold zseq. rewrite <- zseq_spec_eq. reflexivity.
+  - assert (Hz : Z.to_nat (count_from h ys dy) = O).
+    { unfold count_from in *. destruct (h <=? ys); [reflexivity|]. apply Z.ltb_ge in E2. lia. }
+    unfold zseq. rewrite Hz. reflexivity.
+Qed.
+
+Theorem rows_model_eq_spec w h :
+  0 < w < 4294967296 -> 0 < h < 4294967296 -> rows_model w h = rows_spec w h.
+Proof.
+  intros Hw Hh. unfold rows_model, rows_spec, adam7_spec_table. cbn [flat_map].
+  repeat (f_equal; [ eapply rows_of_pass_spec; try eassumption; try reflexivity; try lia; tauto | ]).
+  f_equal. eapply rows_of_pass_spec; try eassumption; try reflexivity; try lia; tauto.
+Qed.
